@@ -37,6 +37,7 @@ func C12(c *Ctx) {
 	r.Rule("C12/R2", "all round entropy derives from the base seed", 8)
 	r.Rule("C12/R3", "no ambient non-determinism in replayed handlers", 2)
 	r.Rule("C12/R4", "log after compute, file after log", 2)
+	logComplete(c, "C12/R4")
 	r.Rule("C12/R6", "the machine's database is opened with goleveldb's tolerant recovery options (a restart after a kill in the middle of a write must come up)", 2)
 	openTolerant(c, "C12/R6", []string{"/airgapped"})
 	r.Rule("C12/R5", "a replayed step overwrites what its first run stored: no database write of the machine is skipped (or turned into an error) because the entry already exists", 1)
@@ -330,8 +331,15 @@ func c12OverwriteOnReplay(c *Ctx) {
 		return
 	}
 	isDB := func(ci ssa.CallInstruction, name string) bool {
-		id := ssax.FuncID(ssax.CalleeObj(ci))
-		return id == "github.com/syndtr/goleveldb/leveldb.(DB)."+name || id == "github.com/syndtr/goleveldb/leveldb.(Transaction)."+name
+		_, ok := c.levelDBCall(ci, name)
+		return ok
+	}
+	dbKey := func(ci ssa.CallInstruction, name string) string {
+		a, ok := c.levelDBCall(ci, name)
+		if !ok || len(a) == 0 {
+			return ""
+		}
+		return npath(a[0])
 	}
 	nPut, nQ := 0, 0
 	var bad []string
@@ -364,11 +372,13 @@ func c12OverwriteOnReplay(c *Ctx) {
 		}
 		nPut += len(puts)
 		for _, q := range ssax.Calls(fn, false, func(ci ssa.CallInstruction) bool { return isDB(ci, "Has") || isDB(ci, "Get") }) {
-			qa := q.Common().Args
-			key := npath(qa[1])
+			key := dbKey(q, "Has")
+			if key == "" {
+				key = dbKey(q, "Get")
+			}
 			var same []ssa.Instruction
 			for _, p := range puts {
-				if npath(p.Common().Args[1]) == key {
+				if dbKey(p, "Put") == key {
 					same = append(same, p.(ssa.Instruction))
 				}
 			}
@@ -439,4 +449,48 @@ func c12PureCollect(c *Ctx, f *ssa.Function, rg *ssa.Range) bool {
 		println("C12 pure-collect", f.Name(), strings.Join(why, "; "))
 	}
 	return len(why) == 0
+}
+
+
+// logComplete: the operations log holds one entry per PROCESSED operation, duplicates included: a re-fed operation runs
+// its handler again (and draws from the round's deterministic stream again), so a replay that runs it once ends up at
+// another position of that stream — the next step then signs different messages with nonces already used (the same
+// disclosure as F-C12-1). In storeOperation every success return lies behind the database write, and what is written
+// is the log with this operation appended.
+func logComplete(c *Ctx, rule string) {
+	r := c.R
+	fn := c.Fn(rule, "airgapped", "Machine", "storeOperation")
+	if fn == nil {
+		return
+	}
+	puts := ssax.Calls(fn, false, func(ci ssa.CallInstruction) bool {
+		_, ok := c.levelDBCall(ci, "Put")
+		return ok
+	})
+	ok := len(puts) == 1
+	detail := sprintf("%d database writes", len(puts))
+	if ok {
+		for _, ret := range ssax.Returns(fn) {
+			for _, lf := range ssax.Leaves(ret.Results[len(ret.Results)-1], ret) {
+				if ssax.IsNilConst(lf.V) && ssax.ReachableAvoiding(fn, lf.At, nil, []ssa.Instruction{puts[0].(ssa.Instruction)}) {
+					ok, detail = false, "a success return at "+c.PosOf(ret)+" is reachable without the log having been written (an operation that was processed is not logged)"
+				}
+			}
+		}
+		// the appended element is the operation itself
+		app := false
+		ssax.Instrs(fn, func(in ssa.Instruction) {
+			if call, isCall := in.(*ssa.Call); isCall {
+				if b, isB := call.Common().Value.(*ssa.Builtin); isB && b.Name() == "append" && len(call.Common().Args) == 2 {
+					if p := ssax.Path(call.Common().Args[1]); strings.Contains(p, "o") && ssax.ReachableFrom(fn, in, puts[0].(ssa.Instruction), nil, nil) {
+						app = true
+					}
+				}
+			}
+		})
+		if ok && !app {
+			ok, detail = false, "no append of the operation precedes the write"
+		}
+	}
+	r.Check(ok, rule, "airgapped.storeOperation:logs-every-processed-operation", "every processed operation is appended to the durable log (success only past the write)", c.Pos(fn.Pos()), detail)
 }
